@@ -1133,3 +1133,10 @@ impl RwsToString for std::io::Error {
     #[verifier::external_body]
     fn rws_to_string(&self) -> String { self.to_string() }
 }
+
+// a Vec holds at most usize::MAX elements (Vec::len returns usize)
+#[verifier::external_body]
+pub proof fn axiom_vec_len<T>(v: &Vec<T>)
+    ensures v@.len() <= usize::MAX,
+{
+}
